@@ -209,7 +209,7 @@ func genLimitCase(rng *hlib.Rng, w *world, id int, rep *hlib.Report) *Case {
 	c := &Case{ID: id, Kind: "limit", Cfg: genCfg(rng, "limit"), NAccts: n}
 	c.Blocks = []BlockJS{{Parent: -1, State: genGenesis(rng, n)}}
 	x := startRun(w, c, rep)
-	g := &gen{rng: rng, x: x}
+	g := &gen{rng: rng, x: x, big: rng.Chance(50)}
 	nops := 10 + rng.Intn(25)
 	for i := 0; i < nops && !x.stall; i++ {
 		var op OpJS
